@@ -44,12 +44,25 @@ func newVM(c Case, log *[]stEvent) *ds.Context {
 			if r, ok := st.Read(); !ok || r != 'R' {
 				return &ds.CustomDiceParseResult{Matched: false}, nil
 			}
-			if _, ok, err := st.ReadExpr(""); err != nil || !ok {
+			v, ok, err := st.ReadExpr("")
+			if err != nil || !ok {
 				return &ds.CustomDiceParseResult{Matched: false}, nil
 			}
-			return &ds.CustomDiceParseResult{Matched: true}, nil
+			return &ds.CustomDiceParseResult{Matched: true, Payload: v}, nil
 		}, func(ctx *ds.Context, groups []string, payload any) (*ds.VMValue, string, error) {
-			return ds.NewIntVal(ds.IntType(len(groups))), "", nil
+			// the operand is an expression: its value is the value of the custom term (the documented use of ReadExpr)
+			v, _ := payload.(*ds.VMValue)
+			if v == nil {
+				return ds.NewIntVal(ds.IntType(len(groups))), "", nil
+			}
+			r := v.ComputedExecute(ctx, nil)
+			if ctx.Error != nil {
+				return nil, "", ctx.Error
+			}
+			if r == nil {
+				return ds.NewNullVal(), "", nil
+			}
+			return r, "", nil
 		})
 	}
 	vm.Config.CallbackSt = func(_type string, name string, val *ds.VMValue, extra *ds.VMValue, op string, detail string) {
@@ -302,6 +315,17 @@ func TestProp(t *testing.T) {
 			c.Custom = true
 			prog += rapid.SampledFrom([]string{"; ", "\n"}).Draw(t, "customSep") + rapid.SampledFrom([]string{"R(2)", "R(1+2)", "R[1,2][0]", "1 + R(3)", "R(2) * 2", "[R(1), R(2)]", "R'a'"}).Draw(t, "customUse")
 			s.Class("with-custom-dice-operand")
+			if rapid.Bool().Draw(t, "customPlain") {
+				// the plain configuration (no family, no restriction), and a tail that goes on with an operator and a
+				// dict or template that breaks off
+				c.Cfg.CoC, c.Cfg.WoD, c.Cfg.Fate, c.Cfg.DC = false, false, false, false
+				c.Cfg.NoStmts, c.Cfg.NoNDice, c.Cfg.NoBitwise = false, false, false
+				tail = rapid.SampledFrom([]string{" + {a:", " + `{hp = 0", " * {'k': x,", " - `a{1}b{", " + {a: 1", " ?? `{", " + {", " + `x{ a = 9"}).Draw(t, "customTail")
+				tclass = "operator-then-broken-dict-or-template"
+				if rapid.Bool().Draw(t, "customSetup") {
+					c.Setup = append(c.Setup, "a = 7; hp = 5; x = 3")
+				}
+			}
 		}
 		c.Prog, c.Tail = prog, tail
 		c.Src = prog + tail
